@@ -126,10 +126,22 @@ RootsRound2(s) ==
     \/ \E sf \in SF : Round2Free(s, sf)
     \/ \E sf \in SF : Round2Append(s, sf)
 
+\* amounts near the top of the 128-bit range (the harness builds the real lists)
+AFund == {"ovfLast", "ovfMid", "tooBig"}
+ARepl == {"ovfLast", "ovfMid"}
+AnyAcc == CHOOSE a \in Accounts : TRUE
+AnyPool == CHOOSE p \in Pools : TRUE
+OvfDeps == <<[a |-> AnyAcc, n |-> 1], [a |-> AnyAcc, n |-> 1], [a |-> AnyAcc, n |-> 1]>>
+OvfBegin(s) ==
+    \/ \E af \in AFund : BeginFund(s, OvfDeps, "ok", af)
+    \/ \E af \in ARepl : BeginRepl(s, "accts", <<AnyAcc>>, 1, "ok", af)
+    \/ \E af \in ARepl : BeginRepl(s, "pools", <<AnyPool>>, 1, "ok", af)
+
 AccountsBegin(s) ==
-    \/ \E deps \in DepChoices, sf \in SF : BeginFund(s, deps, sf)
-    \/ \E accs \in AccLists(Accounts), t \in Targets, cf \in CF : BeginRepl(s, "accts", accs, t, cf)
-    \/ \E accs \in AccLists(Pools), t \in Targets, cf \in CF : BeginRepl(s, "pools", accs, t, cf)
+    \/ OvfBegin(s)
+    \/ \E deps \in DepChoices, sf \in SF : BeginFund(s, deps, sf, "ok")
+    \/ \E accs \in AccLists(Accounts), t \in Targets, cf \in CF : BeginRepl(s, "accts", accs, t, cf, "ok")
+    \/ \E accs \in AccLists(Pools), t \in Targets, cf \in CF : BeginRepl(s, "pools", accs, t, cf, "ok")
     \/ \E b \in AttachChoices : BeginAttach(s, b)
     \/ \E b \in DetachChoices : BeginDetach(s, b)
     \/ \E a \in Accounts, sec \in SecIds, u \in ReadUnits, tp \in TP : BeginRead(s, a, sec, u, tp[1], tp[2])
@@ -143,9 +155,10 @@ RevisionsBegin(s) ==
     \/ \E secs \in {<<1>>, <<U, 2>>}, pf \in PF, cf \in CF : BeginAppend(s, secs, pf, cf)
     \/ \E ol \in {<<0, 1>>, <<1, 1>>, <<0, 0>>, <<1, rev.size>>}, pf \in PF, sf \in SF : BeginRoots(s, ol[1], ol[2], pf, sf)
     \/ BeginLatest(s)
-    \/ \E deps \in OneDep, sf \in SF : BeginFund(s, deps, sf)
-    \/ \E a \in Accounts, t \in Amts, cf \in CF : BeginRepl(s, "accts", <<a>>, t, cf)
-    \/ \E p \in Pools, t \in Amts, cf \in CF : BeginRepl(s, "pools", <<p>>, t, cf)
+    \/ OvfBegin(s)
+    \/ \E deps \in OneDep, sf \in SF : BeginFund(s, deps, sf, "ok")
+    \/ \E a \in Accounts, t \in Amts, cf \in CF : BeginRepl(s, "accts", <<a>>, t, cf, "ok")
+    \/ \E p \in Pools, t \in Amts, cf \in CF : BeginRepl(s, "pools", <<p>>, t, cf, "ok")
     \/ \E kind \in RenewKinds, pf \in PF, cf \in CF, rf \in {"ok", "bad"} : BeginRenew(s, kind, pf, cf, rf)
 RevisionsRound2(s) ==
     \/ \E sf \in SF : Round2Free(s, sf)
@@ -155,12 +168,12 @@ RevisionsRound2(s) ==
 
 \* Leg R, second renter: a few honest requests racing the first renter's exchange
 SmallBegin(s) ==
-    \/ BeginFund(s, <<[a |-> CHOOSE a \in Accounts : TRUE, n |-> 1]>>, "ok")
+    \/ BeginFund(s, <<[a |-> CHOOSE a \in Accounts : TRUE, n |-> 1]>>, "ok", "ok")
     \/ BeginFree(s, <<0>>, "ok", "ok")
     \/ BeginAppend(s, <<1>>, "ok", "ok")
     \/ BeginRoots(s, 0, 1, "ok", "ok")
     \/ BeginLatest(s)
-    \/ BeginRepl(s, "accts", <<CHOOSE a \in Accounts : TRUE>>, 2, "ok")
+    \/ BeginRepl(s, "accts", <<CHOOSE a \in Accounts : TRUE>>, 2, "ok", "ok")
 
 FamilyBegin(s) ==
     CASE Family = "roots" -> RootsBegin(s)
